@@ -804,7 +804,9 @@ async def concurrent_scenario(loop, case, off, first, out, stats):
         # while B held it, it was nowhere else
         if got and got["held_snapshot"] not in (["held"], None):
             out.append(V("duplicated", kind, ctx + "/held-and-waiting", f"offset {off} ({first} first): B was handed {got['id']} while it was at {got['held_snapshot']}"))
-        if got.get("id") == victim and case["op"] == "requeue" and got["payload"] != "p-new":
+        # (a requeue that lost the race against finish() finds the message already returned and is a no-op: both the old and
+        # the new content are legal outcomes here; what is judged is that the message exists exactly once)
+        if got.get("id") == victim and case["op"] == "requeue" and got["payload"] not in ("p-new", f"p-{victim}"):
             out.append(V("requeue_not_effective", kind, ctx, f"offset {off}: B received the requeued {victim} with payload {got['payload']!r}"))
         # the client hands back what the broker still marks as held by the finished consumer (redis / rabbit leave that to it)
         snap = rig.snapshot()
